@@ -170,6 +170,12 @@ def texts(draw, enc, max_lines=6, nonempty=True):
 
     text = ''.join(parts)
 
+    if draw(st.sampled_from(range(16))) == 0:
+        # an empty first line; a lone CR / LF / CRLF / nothing at the end
+        text = (draw(st.sampled_from(['\n', '\r\n', '\n\n'])) +
+                (text.rstrip('\r\n') or 'x') +
+                draw(st.sampled_from(['\r', '\r', '\n', '\r\n', ''])))
+
     # a text that itself starts with U+FEFF (not a codec BOM)
     if draw(st.integers(0, 9)) == 0 and _encodable_in('\ufeff', enc):
         text = '\ufeff' + text
